@@ -193,6 +193,29 @@ def replay_units(case) -> dict:
         so = np.asarray(pipe.soft_otsu(r, r)(np.abs(fimg) + blob * 5, 0.5))
         if so.min() < 0 or so.max() > 1 + 1e-6:
             fails.append(dict(desc, clause="SoftMaskRange", what="soft_otsu"))
+    # user functions whose `scale` parameter has a DEFAULT are still called with the scale of the evaluation
+    from acryo.pipe import converter_function, provider_function
+
+    @provider_function
+    def ramp(scale=1.0, n=4):
+        return np.full((n, n, n), scale, dtype=np.float32)
+
+    @converter_function
+    def addscale(img, scale=1.0, k=1.0):
+        return img + k * scale
+
+    for sc in (0.5, 2.0):
+        try:
+            pv = np.asarray(ramp()(sc))
+            pv2 = np.asarray(ramp(n=3)(sc))
+            cv = np.asarray(addscale(k=3.0)(arr, sc))
+            comp = np.asarray((addscale(k=3.0) @ ramp())(sc))
+            ok = (pv.shape == (4, 4, 4) and np.allclose(pv, sc) and pv2.shape == (3, 3, 3) and np.allclose(cv, arr + 3.0 * sc)
+                  and np.allclose(comp, sc + 3.0 * sc))
+        except Exception as ex:  # noqa: BLE001
+            ok = False
+        if not ok:
+            fails.append(dict(desc, clause="CurriedFunctionGetsTheScale", scale=sc))
     # loader-level normalisation of template / mask inputs
     from acryo import Molecules, SubtomogramLoader
 
